@@ -93,20 +93,6 @@ theorem points_polar_rotate (g : Grid) (α : Rat) (h2 : g.coords.ndim = 2) :
 
 /-! ## Weights -/
 
-theorem Grid.getWeights_ne_none (g : Grid) (w : Weights) (h : g.getWeights = some w) : w ≠ .none := by
-  unfold Grid.getWeights at h
-  cases hw : g.weights with
-  | none => rw [hw] at h; exact autoWeights_ne_none _ _ _ h
-  | scalar x => rw [hw] at h; injection h with h; subst h; simp
-  | array x => rw [hw] at h; injection h with h; subst h; simp
-
-theorem Grid.getWeights_stored (g : Grid) (h : g.weights ≠ .none) : g.getWeights = some g.weights := by
-  unfold Grid.getWeights
-  cases hw : g.weights with
-  | none => exact absurd hw h
-  | scalar x => rfl
-  | array x => rfl
-
 /-- **Scaling multiplies every cell weight by the absolute Jacobian** `Π|f_i|` (per-axis factors of
 either sign; `|s|^ndim` for a scalar), whatever the weights were: explicit, cached or automatic. -/
 theorem weights_scale (g g' : Grid) (s : ScaleArg) (wl : List Rat) (hc : g.system = .cartesian)
@@ -169,20 +155,6 @@ theorem nonmutating_independent (st : Store) (g g2 : Grid) (j : Nat) (h : j < st
 
 /-! ## Regular grids: covered area, sub/supersampling, focal grids -/
 
-theorem ratSum_replicate (n : Nat) (w : Rat) : ratSum (List.replicate n w) = (n : Rat) * w := by
-  induction n with
-  | zero => simp [ratSum]
-  | succ n ih => simp only [List.replicate_succ, ratSum, ih]; push_cast; ring
-
-theorem area_prod : ∀ (a : List RegAxis),
-    ((natProd (a.map (·.dim)) : Nat) : Rat) * ratProd ((a.map (·.delta)).map absQ) =
-      ratProd (a.map fun x => (x.dim : Rat) * absQ x.delta)
-  | [] => by simp [natProd, ratProd]
-  | x :: a => by
-    have ih := area_prod a
-    simp only [List.map_cons, natProd, ratProd] at ih ⊢
-    rw [← ih]; push_cast; ring
-
 /-- **The weights of a regular grid sum to the covered area** `Π dims_i·|δ_i|` (either sign of `δ`). -/
 theorem regular_weights_sum (a : List RegAxis) :
     (Grid.mk .cartesian (.regular a) .none).weightList.map ratSum =
@@ -190,13 +162,6 @@ theorem regular_weights_sum (a : List RegAxis) :
   simp only [Grid.weightList, Grid.getWeights, autoWeights, Option.map_some, Weights.toList, Coords.size,
     ratSum_replicate, Option.some.injEq]
   rw [← ratProd_map_absQ]; exact area_prod a
-
-theorem sub_super_axis (k : Nat) (hk : 1 ≤ k) (a : RegAxis) : (a.supersample k).subsample k = a := by
-  have hk0 : (k : Rat) ≠ 0 := by exact_mod_cast (by omega : k ≠ 0)
-  cases a with
-  | mk d n z =>
-    simp only [RegAxis.supersample, RegAxis.subsample, RegAxis.mk.injEq]
-    refine ⟨by field_simp, Nat.mul_div_cancel n (by omega), by field_simp; ring⟩
 
 /-- **Supersampling then subsampling by the same factors returns the original sampling** (spacing,
 origin and number of points per axis), for any positive integer factor per axis. -/
@@ -216,20 +181,6 @@ theorem sub_super_id (g : Grid) (a : List RegAxis) (k : List Nat) (hg : g.coords
       simp only [List.zipWith_cons_cons, List.cons.injEq]
       exact ⟨sub_super_axis x (hk x (by simp)) y, ih a (by simpa using hl) (fun z hz => hk z (by simp [hz]))⟩
 
-theorem centred_zero_mem (δ : Rat) (n : Nat) (hn : 1 ≤ n) : (0 : Rat) ∈ (centredAxis δ n 0).values := by
-  simp only [RegAxis.values, centredAxis, List.mem_map, List.mem_range]
-  refine ⟨n / 2, Nat.div_lt_self (by omega) (by omega), ?_⟩
-  have hn2 : (n : Rat) = 2 * ((n / 2 : Nat) : Rat) + ((n % 2 : Nat) : Rat) := by
-    exact_mod_cast (Nat.div_add_mod n 2).symm
-  linear_combination (-δ / 2) * hn2
-
-theorem origin_mem : ∀ (axes : List (List Rat)), (∀ ax ∈ axes, (0 : Rat) ∈ ax) →
-    List.replicate axes.length 0 ∈ tensorPoints axes
-  | [], _ => by simp [tensorPoints]
-  | ax :: rest, h => by
-    simp only [tensorPoints, List.length_cons, List.replicate_succ, List.mem_flatMap, List.mem_map]
-    exact ⟨_, origin_mem rest (fun a ha => h a (by simp [ha])), 0, h ax (by simp), rfl⟩
-
 /-- a regular grid whose axes are `delta·(-n/2 + (n mod 2)/2) + k·delta` contains the origin, for
 odd and for even `n ≥ 1` alike -/
 theorem centred_has_origin (l : List (Rat × Nat)) (h : ∀ x ∈ l, 1 ≤ x.2) :
@@ -241,11 +192,6 @@ theorem centred_has_origin (l : List (Rat × Nat)) (h : ∀ x ∈ l, 1 ≤ x.2) 
     obtain ⟨x, hx, rfl⟩ := hax
     exact centred_zero_mem _ _ (h x hx))
   simpa using this
-
-theorem truncNat_pos (x : Rat) (h : 1 ≤ x) : 1 ≤ truncNat x := by
-  unfold truncNat
-  have : (1 : Int) ≤ x.floor := Rat.le_floor_iff.mpr (by simpa using h)
-  omega
 
 /-- **`make_focal_grid` always contains the origin** (per-axis `q`, `num_airy`, resolution; the
 number of points `int(2·num_airy·q)` may be odd or even) as soon as it has a point at all. -/
